@@ -144,6 +144,23 @@ class Check:
         self.axioms = {"closed": closed, "axioms_reached": axs}
         for n in names:
             self.obligations.append(("theorem:" + n, True, ""))
+        if self.tier == "thorough":
+            # independent re-check of the compiled files of this property and everything they depend on
+            try:
+                q = subprocess.run(["coqchk", "-silent", "-o", "-Q", os.path.join(COQ, "theories"), "PsdV", logical],
+                                   capture_output=True, text=True, timeout=3000, cwd=COQ)
+                txt = q.stdout + q.stderr
+                ax = re.search(r"\* Axioms:(.*?)\n\s*\n\* Constants", txt, re.S)
+                axl = [a.strip() for a in (ax.group(1).split("\n") if ax else []) if a.strip() and "<none>" not in a]
+                axl = [a for a in axl if "Int63" not in a and "PrimFloat" not in a]
+                allowed = ("FunctionalExtensionality.functional_extensionality_dep", "ClassicalDedekindReals.sig_not_dec",
+                           "ClassicalDedekindReals.sig_forall_dec", "Classical_Prop.classic")
+                extra = [a for a in axl if not a.endswith(allowed)]
+                okc = q.returncode == 0 and not extra and "type-in-type: <none>" in txt and "positivity is assumed: <none>" in txt
+                self.axioms["coqchk_axioms"] = axl
+                self.obligations.append(("coqchk:" + logical, okc, "" if okc else txt[-400:]))
+            except Exception as e:  # noqa
+                self.obligations.append(("coqchk:" + logical, False, repr(e)[:300]))
 
     def coq_gen(self, name, text, timeout=600):
         """Write build/<pid>/gen/<name>.v (a table read from the live objects of /repo, plus lemmas that must
